@@ -189,6 +189,13 @@ func (g *Gen) unop(x *ssa.UnOp) {
 		if c := g.typeInv(v, x.Type(), old); c != "true" {
 			g.assumeAlways(c)
 		}
+		if !old && l.kind == "heap" && !l.obj {
+			if cond := g.entryValueCond(g.heapGet(l.comp), l.ref); cond != "" {
+				if c := g.typeInv(v, x.Type(), true); c != "true" {
+					g.assumeAlways(fmt.Sprintf("(=> %s %s)", cond, c))
+				}
+			}
+		}
 	case token.NOT:
 		fr.val[x] = fmt.Sprintf("(not %s)", g.term(x.X))
 	case token.SUB:
@@ -874,11 +881,12 @@ func (g *Gen) callCommon(in *ssa.Call, cc *ssa.CallCommon, guard string) {
 		if g.fr.c != nil && e.Label != "" && g.fr.c.Ignores[lastName(key)+"#"+e.Label] {
 			continue // the enclosing function's contract asks not to assume this (weaker context, sound)
 		}
-		if ct.Mode == "int" && g.bv && ct.Trusted == "" {
+		if ct.Mode == "int" && g.bv && ct.Trusted == "" && !arithFree(e.E) {
 			// a contract proved over mathematical integers cannot be restated inside a bit-vector
-			// obligation (no bridges between the theories): its postconditions are not assumed here
-			g.note("postconditions of %s (arith int) are not assumed in this bit-vector function", key)
-			break
+			// obligation (no bridges between the theories): its postconditions are not assumed here --
+			// except those that involve no arithmetic at all (result != nil, fresh(result), p == q)
+			g.note("postcondition of %s (arith int) is not assumed in this bit-vector function: %s", key, e.E.String())
+			continue
 		}
 		// A postcondition written for the other arithmetic mode (bit operations in a contract that an
 		// `arith int` caller uses) cannot be stated here: it is then NOT assumed (weaker context, sound)
@@ -904,6 +912,44 @@ func (g *Gen) callCommon(in *ssa.Call, cc *ssa.CallCommon, guard string) {
 			}
 		}
 	}
+}
+
+// arithFree: the expression speaks about references only -- identifiers, field selections, nil, booleans,
+// (in)equality, fresh / whole / typeof / typetag -- and means the same in both arithmetic modes
+func arithFree(e *Expr) bool {
+	if e == nil {
+		return true
+	}
+	switch e.Op {
+	case "id", "nil", "true", "false", "sel":
+	case "un":
+		if e.Val != "!" {
+			return false
+		}
+	case "bin":
+		switch e.Val {
+		case "&&", "||", "==>", "<==>", "==", "!=":
+		default:
+			return false
+		}
+	case "call":
+		if len(e.Args) == 0 || e.Args[0].Op != "id" {
+			return false
+		}
+		switch e.Args[0].Val {
+		case "fresh", "whole", "typeof", "typetag", "old":
+		default:
+			return false
+		}
+	default:
+		return false
+	}
+	for _, a := range e.Args {
+		if !arithFree(a) {
+			return false
+		}
+	}
+	return true
 }
 
 func lastName(key string) string {
@@ -1126,7 +1172,10 @@ func (g *Gen) appendBuiltin(in *ssa.Call, cc *ssa.CallCommon) {
 		// outside: in place keeps old, fresh is zero
 		fits, h, a, i, g.zeroValue(et),
 		na, i))
-	g.setComp(c, fmt.Sprintf("(ite %s %s (store %s (base %s) %s))", fmt.Sprintf("(= %s %s)", lb, g.idx(0)), h, h, r, na))
+	// (when nothing is appended the result is the first argument and `na` equals its old row, so the store is
+	// the identity; no case split on the length is needed -- an `ite` between two heap versions hides the
+	// row from E-matching)
+	g.setComp(c, fmt.Sprintf("(store %s (base %s) %s)", h, r, na))
 	if in != nil {
 		g.fr.val[in] = r
 	}
